@@ -255,13 +255,15 @@ def cacheGet (s : Store) (k : Key) : Option Obj :=
   | some o => if o.cacheLabel then some o else none
   | none => none
 
-/-- `reconcileObject`. -/
-def reconcileObject (cfg : Cfg) (ow : Owner) (prev : List Prev) (p : PObj) (w : World) : World × ObjRes :=
-  let k := keyOf cfg ow p
-  let cur := match cacheGet w.store k with
-    | some o => some o
-    | none => w.store.get k          -- uncached read
-  match cur with
+/-- The object `reconcileObject` looks at: cache first, uncached API read second. -/
+def seen (w : World) (k : Key) : Option Obj :=
+  match cacheGet w.store k with
+  | some o => some o
+  | none => w.store.get k          -- uncached read
+
+/-- `reconcileObject` after the reads: `none` = the object does not exist. -/
+def reconcileObjectWith (cfg : Cfg) (ow : Owner) (prev : List Prev) (p : PObj) (w : World) (k : Key) :
+    Option Obj → World × ObjRes
   | none =>
     -- create with the controller reference set on the desired object
     let owners := match cfg.st with | .native => [ow.ref true] | .annotation => []
@@ -287,6 +289,10 @@ def reconcileObject (cfg : Cfg) (ow : Owner) (prev : List Prev) (p : PObj) (w : 
           let (w, o) := w.apply k (appliedFor cfg ow p updated.owners)
           (w, .actual o)
         else (w, .actual updated)
+
+/-- `reconcileObject`. -/
+def reconcileObject (cfg : Cfg) (ow : Owner) (prev : List Prev) (p : PObj) (w : World) : World × ObjRes :=
+  reconcileObjectWith cfg ow prev p w (keyOf cfg ow p) (seen w (keyOf cfg ow p))
 
 /-- `reconcilePhaseObject`. -/
 def reconcilePhaseObject (cfg : Cfg) (ow : Owner) (prev : List Prev) (p : PObj) (w : World) : World × ObjRes :=
